@@ -92,6 +92,38 @@ func c15Monitor(args []string) int {
 		}
 		rep.Sample(map[string]interface{}{"fen": fen, "mirror": mfen})
 	})
+	// positions reached through a history with repetitions (both sides shuffle a piece out and back once or twice):
+	// the value on the played position object is the value of the same position set up from its FEN
+	evalSwitches(0)
+	for k := 0; k < 6+n/400; k++ {
+		g, ok := w.shuffleGame()
+		if !ok {
+			continue
+		}
+		// replay without legality probing on the object under test
+		p, _ := position.NewPositionFen(g.Root)
+		if p == nil {
+			continue
+		}
+		for i, m := range g.Moves {
+			p.DoMove(m)
+			fr, _ := position.NewPositionFen(p.StringFen())
+			if fr == nil {
+				break
+			}
+			rep.Cases++
+			rep.Stats["evaluations_behind_a_shuffle_history"]++
+			if p.CheckRepetitions(1) {
+				rep.Stats["evaluations_of_repeated_positions"]++
+			}
+			a, b := reused.Evaluate(p), evaluator.NewEvaluator().Evaluate(fr)
+			if a != b {
+				rep.Violate("evaluation-depends-on-history", map[string]interface{}{"root": g.Root, "moves": movesUci(g.Moves[:i+1]), "fen": p.StringFen(), "phase_clamp_reachable": phaseClampReachable(p) || p.GamePhase() != fr.GamePhase()},
+					fmt.Sprintf("%d on the position reached by play, %d on the same position set up from its FEN", a, b))
+				break
+			}
+		}
+	}
 	return rep.Emit()
 }
 
